@@ -172,11 +172,19 @@ class StubProtocol:
 
 
 class Listener:
-    def __init__(self):
+    """Like MrpPushUpdater.state_updated: reads the full report INSIDE the call-back."""
+
+    def __init__(self, impl):
+        self.impl = impl
         self.calls = 0
+        self.seen = []                 # observations made inside state_updated()
 
     async def state_updated(self):
         self.calls += 1
+        try:
+            self.seen.append(self.impl.observe())
+        except Exception as ex:  # pylint: disable=broad-except
+            self.seen.append({"error": "%s: %s" % (type(ex).__name__, ex)})
 
 
 class Impl:
@@ -187,7 +195,7 @@ class Impl:
         self.im = im
         self.proto = StubProtocol()
         self.psm = im["ps"].PlayerStateManager(self.proto)
-        self.listener = Listener()
+        self.listener = Listener(self)
         self.psm.listener = self.listener
         self.md = im["mrp"].MrpMetadata(self.proto, self.psm, None, None)
 
@@ -195,8 +203,16 @@ class Impl:
         msg = self.im["pb"].ProtocolMessage()
         msg.ParseFromString(data)
         before = self.listener.calls
+        self.listener.seen = []
         _drive(self.proto.handlers[msg.type](msg))
+        for o in self.listener.seen:
+            if isinstance(o, dict):
+                raise RuntimeError("metadata.playing() inside state_updated(): " + o["error"])
         return self.listener.calls - before
+
+    def seen_at_wakeup(self):
+        """The last report read inside state_updated() while the last message was handled."""
+        return self.listener.seen[-1] if self.listener.seen else None
 
     def observe(self):
         return flat_playing(self.im, _drive(self.md.playing()), self.md.app)
@@ -233,17 +249,18 @@ I_TOTAL, I_POS = 8, 9
 
 
 def run_impl(history, wires=None):
-    """-> (obs0, [(obs, wake_calls)] per message, error or None)."""
+    """-> (obs0, [(obs, wake_calls, last obs inside a wake-up or None)] per message, error or None)."""
     impl = Impl()
     obs0 = impl.observe()
     tr = []
     for i, m in enumerate(history):
         try:
             w = impl.feed(wires[i] if wires else wire(m))
+            sw = impl.seen_at_wakeup()
             o = impl.observe()
         except Exception as ex:  # pylint: disable=broad-except
             return obs0, tr, "%s: %s" % (type(ex).__name__, ex)
-        tr.append((o, w))
+        tr.append((o, w, sw))
     return obs0, tr, None
 
 
@@ -382,7 +399,7 @@ def judge_history(history, obs0, tr, err):
     exp0 = ref_reported([])
     if obs0 != exp0:
         out.append(("C11:report:initial-not-idle", "initial report %r" % (obs0,), -1))
-    for i, (o, w) in enumerate(tr):
+    for i, (o, w, sw) in enumerate(tr):
         exp = ref_reported(history[:i + 1])
         k = judge_position(o[I_POS], o[I_TOTAL])
         if k:
@@ -401,6 +418,10 @@ def judge_history(history, obs0, tr, err):
             if m["k"] == "RP" and m["p"] == 1:
                 key = "C11:wake:default-player-removed"
             out.append((key, "reported state changed from %r to %r without listener.state_updated()" % (prev, o), i))
+        if w > 0 and sw != o:
+            out.append(("C11:wake:stale-state-at-wakeup",
+                        "listener.state_updated() was called while metadata still reported %r; after the message it reports %r "
+                        "(a listener reading playing() in the call-back announces the old state)" % (sw, o), i))
         prev = o
     return out
 
@@ -593,7 +614,8 @@ def history_replay(history, key=None):
     o0, tr, err = run_impl(history)
     return {"kind": "history", "now": NOW, "history": history,
             "strings": {"clients": CL, "players": PL, "strings": STR},
-            "impl_initial": o0, "impl_after_each_message": [[o, w] for (o, w) in tr],
+            "impl_initial": o0, "impl_after_each_message": [[o, w] for (o, w, _sw) in tr],
+            "impl_seen_inside_wakeup": [sw for (_o, _w, sw) in tr],
             "reference_after_each_message": [ref_reported(history[:i + 1]) for i in range(len(history))],
             "fields": FIELD_NAMES, "error": err}
 
@@ -629,6 +651,7 @@ def run(ctx):
                 "(incl. \"\" and the default player) x 8 kinds x rich fields (14 metadata fields, rates around 0/1, "
                 "negative/zero/NaN durations, future timestamps, empty and duplicate item identifiers, locations past "
                 "the queue); (3) Playing(position,total_time) over the full grid -8..16 x -8..14 plus None. "
+                "The stub listener reads the full report INSIDE state_updated(); per message the report after it, the number of wake-ups and the last report read inside a wake-up are recorded. "
                 "non-trivial = the reported state is not the idle one; distinct by the canonical message list"
                 % (depth, n_random, max_len))
     found = {}                                  # key -> (what, replay-ish)
@@ -677,6 +700,7 @@ def run(ctx):
             try:
                 for i in idxs:
                     w = impl.feed(AW[i])
+                sw = impl.seen_at_wakeup()
                 o = impl.observe()
             except Exception as ex:  # pylint: disable=broad-except
                 err = "%s: %s" % (type(ex).__name__, ex)
@@ -685,11 +709,11 @@ def run(ctx):
             n_seq += 1
             if err:
                 record("C11:report:raises", err, h, n - 1)
-                exp.append((0, False))
+                exp.append((0, None))
                 continue
             oi = tix(o)
             obs_of[idxs] = oi
-            exp.append((oi, w > 0))
+            exp.append((oi, tix(sw) if w > 0 else None))
             # oracle on the last message (all prefixes are cases of their own)
             want = ref_reported(h)
             k = judge_position(o[I_POS], o[I_TOTAL])
@@ -700,6 +724,9 @@ def run(ctx):
                     record(key, what, h, step)
             prev = obs_of.get(idxs[:-1])
             if prev is not None and prev != oi and w == 0:
+                for (key, what, step) in judge_history(h, *run_impl(h)):
+                    record(key, what, h, step)
+            if w > 0 and sw != o:
                 for (key, what, step) in judge_history(h, *run_impl(h)):
                     record(key, what, h, step)
             if w > 1:
@@ -721,9 +748,9 @@ def run(ctx):
             record(key, what, h, step)
         if not err:
             rnd_cases.append((h, o0, tr))
-        nt = any(o != idle for (o, _w) in tr)
+        nt = any(o != idle for (o, _w, _sw) in tr)
         ctx.case(json.dumps(h, sort_keys=True), nontrivial=nt,
-                 sample={"history": h, "reported_after_each": [o for (o, _w) in tr], "woken": [w for (_o, w) in tr]} if len(h) <= 4 else None)
+                 sample={"history": h, "reported_after_each": [o for (o, _w, _sw) in tr], "woken": [w for (_o, w, _sw) in tr]} if len(h) <= 4 else None)
         ctx.count("rnd-len%02d" % len(h))
         for m in h:
             ctx.count("kind:" + m["k"])
@@ -764,7 +791,7 @@ def run(ctx):
             parts = [([A[i]], n - 1, exp[i * per:(i + 1) * per], "enum%d_%02d" % (n, i)) for i in range(len(A))]
         for (prefix, k, e, name) in parts:
             txt = (HEADER + tab_txt + alpha_txt +
-                   "Definition expected : list (nat * bool) := [\n%s\n].\n" % ";".join("(%d%%nat,%s)" % (i, common.cbool(w)) for (i, w) in e) +
+                   "Definition expected : list (nat * option nat) := [\n%s\n].\n" % ";".join("(%d%%nat,%s)" % (i, "None" if w is None else "Some %d%%nat" % w) for (i, w) in e) +
                    "Eval vm_compute in (check_enum %d [%s] A %d%%nat table expected).\n" % (NOW, "; ".join(c_msg(m) for m in prefix), k))
             items.append((name, txt))
     per = 150
@@ -772,8 +799,8 @@ def run(ctx):
         chunk = rnd_cases[i:i + per]
         body = ";\n".join("(%d, [%s], %s, [%s])" % (
             NOW, "; ".join(c_msg(m) for m in h), c_obs(o0),
-            "; ".join("(%s, %s)" % (c_obs(o), common.cbool(w > 0)) for (o, w) in tr)) for (h, o0, tr) in chunk)
-        txt = (HEADER + "Definition cases : list (Z * list msg * list (option Z) * list (list (option Z) * bool)) := [\n%s\n].\n" % body +
+            "; ".join("(%s, %s)" % (c_obs(o), "Some %s" % c_obs(sw) if w > 0 else "None") for (o, w, sw) in tr)) for (h, o0, tr) in chunk)
+        txt = (HEADER + "Definition cases : list (Z * list msg * list (option Z) * list wobs) := [\n%s\n].\n" % body +
                "Eval vm_compute in (bad_indices check_case cases).\n")
         items.append(("rnd_%03d" % (i // per), txt))
     txt = (HEADER + "Definition cases : list (option Z * option Z * option Z) := [\n%s\n].\n" %
@@ -812,7 +839,7 @@ def run(ctx):
                     else:
                         h, o0, tr = rnd_cases[int(name.split("_")[1]) * per + b]
                         ctx.tie_broken("correspondence:model-vs-PlayerStateManager", json.dumps(
-                            {"history": h, "impl_initial": o0, "impl": [[o, w] for (o, w) in tr]}))
+                            {"history": h, "impl_initial": o0, "impl": [[o, w, sw] for (o, w, sw) in tr]}))
     ctx.extra["distinct_reported_states_in_enumeration"] = len(table)
     ctx.trusted += [
         "hand-written model coq/C11/Model.v of player_state.py / build_playing_instance / Playing._post_process, tied by the differential run in this file (exhaustive short sequences + random rich histories), compared inside Coq by vm_compute",
@@ -859,6 +886,8 @@ def replay(ctx, path):
         print("message %d: %s" % (i, json.dumps(m, sort_keys=True)))
         if i < len(tr):
             print("   reported: %s woken=%d" % (dict(zip(FIELD_NAMES, tr[i][0])), tr[i][1]))
+            if tr[i][1] and tr[i][2] != tr[i][0]:
+                print("   seen inside state_updated(): %s" % dict(zip(FIELD_NAMES, tr[i][2])))
             print("   expected: %s" % dict(zip(FIELD_NAMES, ref_reported(h[:i + 1]))))
     print("property-errors=%s" % [(k, s, w) for (k, w, s) in errs])
     return 1 if errs else 0
